@@ -304,6 +304,52 @@ func TestVerifC05CLI(t *testing.T) {
 		r.Fail("sfw binary missing: %v", err)
 		return
 	}
+	// one file with two small functions of which the first, looser one also scores high against
+	// the second: each must raise the alert of ITS OWN signature, in exact mode too
+	if sh, _ := vh.Shard(); sh == 0 {
+		d := filepath.Join(scratch, "cli-two-small")
+		os.MkdirAll(d, 0o755)
+		src := "package main\n\nimport \"os\"\n\nfunc Alpha() int { return 1 }\n\nfunc Beta() int { return 1 + len(os.Args) }\n\nfunc main() { _ = Alpha() + Beta() }\n"
+		f := filepath.Join(d, "m.go")
+		os.WriteFile(f, []byte(src), 0o644)
+		for _, ext := range []string{".db", ".json"} {
+			db := filepath.Join(d, "sigs"+ext)
+			if out, err := exec.Command(sfw, "index", "--name", "Mal", "--db", db, f).CombinedOutput(); err != nil {
+				r.Fail("sfw index (two small functions): %v\n%s", err, out)
+				return
+			}
+			for _, mode := range [][]string{{"--exact"}, {"--threshold", "1.0"}} {
+				args := append(append([]string{"scan", "--no-sandbox", "--db", db}, mode...), f)
+				cmd := exec.Command(sfw, args...)
+				var stdout strings.Builder
+				cmd.Stdout = &stdout
+				rerr := cmd.Run()
+				r.Eval()
+				var so struct {
+					Alerts []detection.ScanResult `json:"alerts"`
+				}
+				key := fmt.Sprintf("cli/two-small-functions/%s/%s", ext, strings.Join(mode, ""))
+				if jerr := json.Unmarshal([]byte(stdout.String()), &so); jerr != nil {
+					r.Violate(key+"/scan-failed", fmt.Sprintf("sfw %v produced no report (exit: %v)", args, rerr), nil)
+					continue
+				}
+				r.Nontrivial(key)
+				for _, fn := range []string{"Alpha", "Beta"} {
+					found := false
+					var seen []string
+					for _, al := range so.Alerts {
+						seen = append(seen, fmt.Sprintf("%s/%s/%v", al.MatchedFunction, al.SignatureName, al.Confidence))
+						if al.MatchedFunction == fn && al.SignatureName == "Mal_"+fn && al.Confidence == 1.0 {
+							found = true
+						}
+					}
+					if !found {
+						r.Violate(key+"/"+fn, fmt.Sprintf("Alpha (`return 1`) and Beta (`return 1 + len(os.Args)`) indexed from one file, then the same file scanned with %v on the %s back end: no alert Mal_%s with confidence 1.0 for function %s; alerts: %v", mode, ext, fn, fn, seen), nil)
+					}
+				}
+			}
+		}
+	}
 	bases := progfam.Bases()
 	pick := map[string]bool{"upcount": true, "strings": true, "crosspkg": true, "deferrecover": true, "panic": true, "nestedloops": true, "switch": true, "bigconst": true}
 	idx := 0
